@@ -93,6 +93,7 @@ type Path struct {
 	Forks     int
 	Decls     []string
 	Assume    []string
+	Post      any // result of the post-processing callback (run in the path's final state)
 }
 
 // Script returns declarations, input assumptions, the path condition and extra assertions.
@@ -191,6 +192,16 @@ func (x *Exec) decide(c *Term) bool {
 		}
 		return d
 	}
+	// already decided by the path condition (syntactically)
+	cs, ncs := c.SMT(), Not(c).SMT()
+	for _, a := range x.pc {
+		if a == cs || a == ncs {
+			d := a == cs
+			x.dec = append(x.dec, d)
+			x.dpos++
+			return d
+		}
+	}
 	x.Queries += 2
 	ft := x.Feasible(x.script(c.SMT())) != "unsat"
 	ff := x.Feasible(x.script(Not(c).SMT())) != "unsat"
@@ -224,6 +235,16 @@ type pathDead struct{}
 // per path on a fresh executor made by newX; it must be deterministic). workers paths are explored
 // concurrently.
 func Explore(workers int, newX func() *Exec, mk func(x *Exec) (*ssa.Function, []Val), maxPaths int) ([]Path, int) {
+	return ExploreWith(workers, newX, func(x *Exec) (*ssa.Function, []Val, func(Val) any) {
+		f, a := mk(x)
+		return f, a, nil
+	}, maxPaths)
+}
+
+// ExploreWith is Explore with a callback that is run on the result of every returning path while
+// the executor still holds the path's memory (it may load through pointers, declare symbols, and
+// signal Unsupported).
+func ExploreWith(workers int, newX func() *Exec, mk func(x *Exec) (*ssa.Function, []Val, func(Val) any), maxPaths int) ([]Path, int) {
 	var mu sync.Mutex
 	cond := sync.NewCond(&mu)
 	work := [][]bool{{}}
@@ -272,8 +293,11 @@ func Explore(workers int, newX func() *Exec, mk func(x *Exec) (*ssa.Function, []
 							}
 						}
 					}()
-					fn, args := mk(x)
+					fn, args, post := mk(x)
 					p.Ret = x.Run(fn, args)
+					if post != nil {
+						p.Post = post(p.Ret)
+					}
 					p.Kind = "return"
 				}()
 				p.PC = append([]string{}, x.pc...)
